@@ -91,6 +91,26 @@ def gen_model(seed: int) -> Dict[str, Any]:
         merges.append([m, s])
     delete = rs.randrange(100) if rs.chance(0.25) else None
     model = {"blocks": blocks, "patches": patches, "merges": merges, "delete": delete}
+    # curved edges on some operations (evaluating an edge must not disturb the vertices it joins): three-point
+    # arcs, arcs by an origin that is not quite equidistant (the library adjusts it), helical angle-and-axis arcs
+    er = Stream(seed, "edges", "C05")
+    if er.chance(0.25):
+        for b in blocks:
+            if not er.chance(0.5):
+                continue
+            for (c1, c2) in er.shuffled(list(P._slots()))[: er.randint(1, 3)]:
+                Pp, Q = b["corners"][c1], b["corners"][c2]
+                mid = [(x + y) / 2 for x, y in zip(Pp, Q)]
+                chord = [y - x for x, y in zip(Pp, Q)]
+                kind = er.weighted([("arc", 3), ("origin", 3), ("angle", 3)])
+                if kind == "arc":
+                    e = {"c1": c1, "c2": c2, "kind": "arc", "data": [round(mid[k] + er.uniform(0.05, 0.15), 6) for k in range(3)]}
+                elif kind == "origin":
+                    off = _unit(er)
+                    e = {"c1": c1, "c2": c2, "kind": "origin", "data": [round(mid[k] + 0.9 * off[k] + er.uniform(-0.08, 0.08) * chord[k], 6) for k in range(3)]}
+                else:
+                    e = {"c1": c1, "c2": c2, "kind": "angle", "angle": round(er.uniform(0.3, 1.2), 4), "axis": [round(x, 4) for x in _unit(er)]}
+                b.setdefault("edges", []).append(e)
     fr = Stream(seed, "flips", "C05")
     if fr.chance(0.25):
         model["inverts"] = [b["name"] for b in blocks if fr.chance(0.5)] or [blocks[0]["name"]]
@@ -104,7 +124,7 @@ def make_program(model: Dict[str, Any], cfg_seed: int, identity: bool = False) -
     cs = Stream(cfg_seed, "config", "C05")
     ops: List[Dict[str, Any]] = []
     for b in model["blocks"]:
-        ops.append({"op": "hex", "name": b["name"], "corners": b["corners"]})
+        ops.append(dict({"op": "hex", "name": b["name"], "corners": b["corners"]}, **({"edges": b["edges"]} if b.get("edges") else {})))
         for a in range(3):
             ops.append({"op": "chop", "target": b["name"], "axis": a, "args": {"count": 2}})
     for p in model["patches"]:
